@@ -2389,3 +2389,24 @@ V('c04-maildir-selfmove-keeps-record', 'C04', 'R4.6', MAILDIRMBX,
   '''            if destination is self:
                 uidl.remove(uid)
 ''', '')
+V('c14-maildir-append-no-undo', 'C14', 'R14.5', MAILDIRMBX,
+  '''        except BaseException:
+            # The message never got a UID, do not leave its file behind.
+            async with self.messages_lock.write_lock():
+                maildir.discard(key)
+            raise
+''', '''        except BaseException:
+            raise
+''')
+V('c14-maildir-copy-undo-narrow', 'C14', 'R14.5', MAILDIRMBX,
+  '''        except BaseException:
+            # The copy never got a UID, do not leave its file behind.''',
+  '''        except Exception:
+            # The copy never got a UID, do not leave its file behind.''')
+V('c11-subs-rstrip-all', 'C11', 'R11.7', 'pymap/backend/maildir/subscriptions.py',
+  "self.add(line.rstrip('\\r\\n'))", "self.add(line.rstrip())")
+V('c11-subs-no-linebreak-guard', 'C11', 'R11.7', MAILDIRMBX,
+  '''        if '\\r' in name or '\\n' in name:
+            # the subscriptions file holds one name per line
+            raise NotSupportedError('Invalid mailbox name.')
+''', '')
